@@ -53,6 +53,9 @@ def step (st : St) (ws : List String) (j : Json) : St × String :=
       let b (k : String) := (jbool? (jget j k)).getD false
       let orc : List String :=
         (if b "sched_stopped" then [] else ["scheduler_stuck"]) ++
+        -- the locks the serialisation theorems take for granted exclude: no thread got an exclusive lock while
+        -- another one was inside (lockdep `Held` intervals lie strictly inside the real critical sections)
+        (if (jarr (jget j "lock_overlaps")).isEmpty then [] else ["exclusive_lock_excludes"]) ++
         (if b "rets_same" then [] else
           -- one predicate per class of differing reply: (op kind, reply under concurrency)
           ((jarr (jget j "ret_diffs")).map fun d => match jarr d with
